@@ -190,8 +190,8 @@ def generate(rnd, tier):
         elif r < 0.52:
             op = {"op": "group_metric", "obj": oi, "name": rnd.choice(GROUP_METRICS), "thr": gen_thr(rnd)}
         elif r < 0.62:
-            op = {"op": "groupwise", "obj": oi, "metric": rnd.choice(["fnr", "fpr", "tpr", "cm_flat", "n_hard", "threshold_at_fnr"]),
-                  "thr": gen_thr(rnd)}
+            op = {"op": "groupwise", "obj": oi, "metric": rnd.choice(["fnr", "fpr", "tpr", "cm_flat", "n_hard", "threshold_at_fnr", "raising"]),
+                  "thr": gen_thr(rnd), "fail_at": rnd.randint(0, 4)}
         elif r < 0.68:
             op = {"op": "swap", "obj": oi}
             pool += 1
@@ -399,6 +399,20 @@ def check_sample(src, src_model, cfg, eff, s, viol, tags, where):
 # execution
 
 
+class GroupCallbackFault(Exception):
+    pass
+
+
+def _raising_metric(k_fail, box):
+    def metric(s, threshold):
+        box["calls"] = box.get("calls", 0) + 1
+        if box["calls"] - 1 == k_fail:
+            box["raised"] = True
+            raise GroupCallbackFault(f"planned failure of the metric on group call {k_fail}")
+        return np.asarray(s.fnr(threshold))
+    return metric
+
+
 def _metric_callable(name):
     if name == "cm_flat":
         return lambda s, threshold: np.asarray(s.cm(threshold)).reshape(np.shape(threshold) + (4,))
@@ -537,13 +551,16 @@ def execute(scn, ctx):
             mname = op["metric"]
             tags["metric"] = mname
             metric = _metric_callable(mname)
+            cbbox = {}
+            if mname == "raising":
+                metric = _raising_metric(op.get("fail_at", 0), cbbox)
             if mname == "threshold_at_fnr":
                 kw = {"fnr": np.clip(np.abs(t) / 6.0, 0, 1)}
             else:
                 kw = {"threshold": t}
-            ok_inputs = True
+            ok_inputs = mname != "raising"
             exp = []
-            for g in model.groups:
+            for g in (model.groups if ok_inputs else []):
                 p, n = model.rows(g)
                 fresh = L.Scores(p, n, score_class=model.sc, equal_class=model.ec)
                 try:
@@ -552,10 +569,13 @@ def execute(scn, ctx):
                 except Exception:  # noqa: BLE001 - metric undefined for this group (e.g. no positives)
                     ok_inputs = False
                     break
+            if mname == "raising":
+                ok_inputs = False  # the call is expected to fail (or, past the last group, to succeed); no value oracle
             if fl:
                 twin = mk_twin()
             gw = L.groupwise(metric)
-            res = run_op(ctx, lambda: gw(o, **kw), fl, (lambda: L.groupwise(metric)(twin, **kw)) if fl else None)
+            twin_metric = _raising_metric(op.get("fail_at", 0), {}) if mname == "raising" else metric  # own call counter
+            res = run_op(ctx, lambda: gw(o, **kw), fl, (lambda: L.groupwise(twin_metric)(twin, **kw)) if fl else None)
             if res["ok"] and ok_inputs and model.groups:
                 e = np.stack(exp, axis=0)
                 got = np.asarray(res["value"])
@@ -565,6 +585,12 @@ def execute(scn, ctx):
                                  "detail": f"groupwise({mname}) = {got.tolist()} but the metric applied group by group gives {e.tolist()} [op {step}]"})
             elif not res["ok"] and ok_inputs and model.groups and not res["interrupted"]:
                 viol.append({"invariant": "C12.groupwise", "detail": f"groupwise({mname}) raised {type(res['value']).__name__}: {res['value']} [op {step}]", "tags": tags})
+            if mname == "raising" and cbbox.get("raised"):
+                fired_kinds.append("callback_raise")
+                faults["callback_raise"] = faults.get("callback_raise", 0) + 1
+                if res["ok"]:
+                    viol.append({"invariant": "C12.groupwise", "tags": tags,
+                                 "detail": f"the metric raised on one group but groupwise returned a value (exception swallowed) [op {step}]"})
         elif kind == "swap":
             probe("swap")
             try:
